@@ -222,6 +222,9 @@ CHECKS['C07']['text'] += ' The element set of a list atom is what the listed sym
 CHECKS['C09']['text'] += ' Every tabulated isotope is a query atom (thorough: all; quick: the ends of the isotope field and a sample); element lists whose letters spell other elements.'
 CHECKS['C10']['text'] += ' bytes() must be the current pack also when the binary form was asked for before numbers and coordinates changed.'
 CHECKS['C18']['text'] += ' A tabulated (element, isotope, charge) combination the constructor refuses is an observation (clause exception:construct-...).'
+CHECKS['C16']['text'] += (' The multi-stage mode (one_shot = False) is the work-list machine ReactorQueue.tla, model checked for every single-stage relation over three '
+                          'molecules, every start mixture and limit (no duplicates, breadth first, complete within polymerise_limit, first level = one-shot, termination; '
+                          'three design constants with refuted instances); recorded runs are checked against the closure TLC computes from the recorded single-stage relation.')
 PENDING = {}
 
 
